@@ -3,19 +3,10 @@
 import json, os
 HERE = os.path.dirname(os.path.dirname(os.path.abspath(__file__)))
 
-CLAIMED = {
- "C09": dict(
-   technique="Coq proof over any commutative *-ring, formulas regenerated from source (translator) + vm_compute correspondence",
-   text="Theorems (Coq 8.16, closed under the global context) for every string length n and every commutative *-ring with i^2=-1: "
-        "matrix = (-i)^q (x) letters; product law incl. the mod-4 phase; commutes_with iff matrices commute (2<>0); Hermiticity flag iff; "
-        "parse(print p)=p (n>=1); refactor_phase/sign factor law; add_pauli_string / exact-zero pruning preserve the operator matrix; "
-        "constructor decision rule. The product/commutation/Hermiticity formulas, phase tables and q reduction are re-extracted from "
-        "pauli_operator.py on every run and the theorems recompiled against them; the rest of the model is tied by a vm_compute "
-        "correspondence run (exhaustive n=1 pairs, all n=2 letter pairs, random n, operator histories, malformed parse inputs, raw constructor data).",
-   note="Trusted: Coq kernel+vm_compute, gen/pauli.py, correspondence harness; scipy.sparse kron/arithmetic modelled as exact dense algebra; "
-        "pruning with tol>0 only compared (exactly) on Gaussian-integer weights; n=0 strings excluded from parse/print.",
-   design="6/C09"),
-}
+CLAIMED = {}
+for fn in sorted(os.listdir(os.path.join(HERE, "claims"))):
+    if fn.endswith(".json"):
+        CLAIMED[fn[:-5]] = json.load(open(os.path.join(HERE, "claims", fn)))
 
 TITLES = {}
 for l in open(os.path.join(HERE, "properties.jsonl")):
